@@ -134,3 +134,17 @@ def run(tier: str) -> int:
     rep.assumptions = ['TLC 32-bit integers: operands with numerator/denominator < 2^24',
                        'stochastic contexts are covered by C17, not here']
     return rep.finish()
+
+
+def _rerun(case):
+    from ..export import ctx_of_json, num_of_json
+    ctx = ctx_of_json(case['ctx'])
+    xj = case['x']
+    x = num_of_json(xj) if xj['k'] != 'fin' or (xj['d'] & (xj['d'] - 1)) == 0 else Fraction(xj['n'], xj['d']) * (-1 if xj['s'] else 1)
+    case = dict(case)
+    case['out'] = _call(ctx, x, case['n'] if case['hasn'] else None)
+    return case
+
+
+def replay(path: str) -> int:
+    return core.replay_saved('C01', 'RoundingTrace', path, rerun=globals().get('_rerun'))
